@@ -2,7 +2,7 @@
 # tools/with_mutant.sh <Cnn> <tier> <patch.diff | -e 'shell edit cmd'>
 # Runs a check against a scratch copy of /repo with a mutation applied (never touches /repo).
 # The evidence file of that property is restored afterwards.
-export GOFLAGS=-mod=mod GOPROXY=off GOSUMDB=off GOTOOLCHAIN=local
+export GOFLAGS="-mod=mod -trimpath" GOPROXY=off GOSUMDB=off GOTOOLCHAIN=local
 id=$1; tier=$2; shift 2
 pkg=$(echo "$id" | tr 'C' 'c')
 T=$(mktemp -d /tmp/fpmut.XXXXXX)
